@@ -5,8 +5,10 @@
 * All virtual instants used by the harness are multiples of TICK = 1/1024 s, so every
   float the real code computes (t + 0.5, t + timeout) is exact and ties are real ties.
 * Scripted events (`loop.at(tick, fn)`) are injected by the loop itself.  At an instant where
-  both a timer and a scripted event are due, `tie` decides: "events" = scripted events
-  happen before the timers' callbacks run, "timers" = after.
+  both a timer and a scripted event are due, `tie` decides: "events" = scripted events happen
+  (and the tasks they wake run) before the timers' callbacks run, "timers" = after, "io" = the
+  event happens before the timer callbacks but the tasks it wakes run after them (what a real
+  reader task feeding the stream produces).
 """
 from __future__ import annotations
 
@@ -70,6 +72,13 @@ class VirtualLoop(asyncio.SelectorEventLoop):
         if self.tie == "events":
             if self._fire_due():
                 self.call_soon(_noop)
+            super()._run_once()
+        elif self.tie == "io":
+            # the order a real transport produces: the event is the work of a callback that is
+            # already queued when the timers of this instant are collected, so it happens BEFORE
+            # the timer callbacks run, but the tasks it wakes run AFTER them
+            if self._script and self._script[0][0] <= self._vnow:
+                self.call_soon(self._fire_due)
             super()._run_once()
         else:
             # timers first: let the base class move due timers to the ready queue and run
